@@ -99,6 +99,11 @@ def gen_cases(ctx: Ctx, rng) -> list[dict]:
                                                  "ttl": None},
                                       "pol": ("default", 10, 86400, 5, 15) if mx != 1 else ("linear", 2 * S, 1),
                                       "calls": [], "fin": fin, "converter": conv, "rbb": True})
+    # a job that wants its result stored, on a worker whose connection has no results broker: the store step fails, the
+    # disposition stands
+    for c in [c for c in cases if c["params"]["result"] is not None and c["fin"][0] in ("return", "raise", "outfail")]:
+        if rng.random() < (0.5 if not ctx.thorough else 1.0):
+            cases.append(dict(c, rbb=False))
     pres = [[], [("set_result", 11, False)], [("set_exception", 77, False)], [("add_callback", (1, False), False)],
             [("add_callback", (1, False), False), ("set_result", 12, False), ("add_callback", (2, False), False)],
             [("add_callback", (1, True), False)],                              # failing callback (known finding)
@@ -128,7 +133,7 @@ def run(ctx: Ctx) -> Result:
     res.count("single_deliveries", len(singles))
     # mixes: up to 8 deliveries processed concurrently by one worker (no zero back-off, time limit below every back-off)
     mixes = []
-    pool = [c for c in singles if not c.get("store_fails") and not pr.returns_at_once(c)]
+    pool = [c for c in singles if not c.get("store_fails") and not pr.returns_at_once(c) and c.get("rbb", True)]
     for _ in range(ctx.scale(120, 1500)):
         k = rng.randint(2, 8)
         mix = [dict(rng.choice(pool)) for _ in range(k)]
